@@ -348,12 +348,13 @@ def handler (s : Server) (now : Nat) (req : Dgram) (fired : Bool) : Server × Na
     else ({ s with pend := s.pend ++ [{ token := req.token, due := now + s.D }] }, 0)
 
 /-- handle_request for a request PDU (received, or the stored one of an async that fired) -/
-def handleRequest (s : Server) (now : Nat) (req : Dgram) : Server × List Out :=
+def handleRequest (s : Server) (now : Nat) (req : Dgram) (stored : Bool := false) : Server × List Out :=
   let a := s.findAsync req.token
-  -- async registered and not yet due: re-transmit the empty ACK, do not pass to the application
+  -- async registered and (this is a PDU from the network, or it is not yet due): re-transmit the empty ACK, do not
+  -- pass to the application.  `stored` = called by coap_check_async with the stored request (pdu == async->pdu)
   match a with
   | some as =>
-    if (match as.due with | some t => decide (t > now) | none => true) then (s, ackFor req)
+    if !stored || (match as.due with | some t => decide (t > now) | none => true) then (s, ackFor req)
     else
       let (s1, code) := s.handler now req true
       let rtype : MType := if req.type = .con then .con else .non
@@ -399,7 +400,7 @@ def checkAsync (now : Nat) : List Async → Server → Server × List Out
     match a.due with
     | some t =>
       if t ≤ now then
-        let (s1, o1) := s.handleRequest now { type := a.reqType, code := 1, mid := a.mid, token := a.token }
+        let (s1, o1) := s.handleRequest now { type := a.reqType, code := 1, mid := a.mid, token := a.token } true
         let s2 := { s1 with asyncs := s1.asyncs.filter (fun b => b != a) }
         let (s3, o2) := checkAsync now rest s2
         (s3, o1 ++ o2)
